@@ -75,6 +75,20 @@ Fixpoint ty_expr (g : tenv) (e : expr) : option (vty * tenv) :=
       end
     | None => None
     end
+  (* a bind whose target is itself a bind: the value has the type of the inner bind's variable *)
+  | Sexp OBind ((Sexp OBind _ _) as t) v =>
+    match v with
+    | Sexp OIf _ _ | Sexp ONotIf _ _ | Sexp OEwma _ _ => None
+    | _ =>
+      match ty_expr g t with
+      | Some (ty1, g1) =>
+        match ty_expr g1 v with
+        | Some (tv, g2) => if vty_eqb ty1 tv then Some (tv, g2) else None
+        | None => None
+        end
+      | None => None
+      end
+    end
   | Sexp o l r =>
     if is_arith o || is_cmp o || is_logic o then
       match ty_expr g l with
@@ -150,10 +164,11 @@ Fixpoint assigns (e : expr) (x : name) : bool :=
   end.
 
 (* the named register an operand is read from when the operator's instruction runs *)
-Definition direct_var (e : expr) : option name :=
+Fixpoint direct_var (e : expr) : option name :=
   match e with
   | Atom (PName x) => match primitive_index x with Some _ => None | None => Some x end
   | Sexp OBind (Atom (PName x)) _ => Some x
+  | Sexp OBind ((Sexp OBind _ _) as t) _ => direct_var t
   | _ => None
   end.
 
